@@ -481,7 +481,7 @@ def vssRec2Go (G : Grp) (st : VssSt) : List Nat → Inbox → List Nat → List 
         match I1.popB none j with
         | (none, I2) => vssRec2Go G st rest I2 parties shares1
         | (some bar, I2) =>
-          if absGe bar G.q then vssRec2Go G st rest I2 parties shares1
+          if absGe sh G.q ∨ absGe bar G.q then vssRec2Go G st rest I2 parties shares1
           else do
             let lhs ← pedF G sh bar
             let rhs ← rhsNoCheck G.p (j + 1) st.A
